@@ -1,8 +1,9 @@
 CONSTANTS
-  Variant = "intended"
+  Variant = "all"
 INIT Init
 NEXT Next
-INVARIANTS TypeOK Atomic ParseFailSafe CheckNeverWrites CheckTruth ExitTruth
+INVARIANTS TypeOK AtomicIntended ParseFailSafe CheckNeverWrites CheckTruth ExitTruth
 PROPERTIES CheckIsPure OnlyRename
 CONSTRAINT Emit
+CONSTRAINT Refuted
 CHECK_DEADLOCK FALSE
